@@ -641,6 +641,7 @@ def run(tier: str) -> int:
     __import__("srctie_c11").add_src_c11(ck, ['HTMLDocument_hoist_head_contentC11', 'HTMLDocument_gen_html_tag_treeC11', 'HTMLDocument_renderC11', 'Tag_renderC11'], thorough=1500)
     ck.extra_cov["repeat_render_cases"] = repeat_render_oracle(ck)
     ck.extra_cov["odd_node_cases"] = odd_nodes_oracle(ck)
+    ck.extra_cov["render_mode_cases"] = __import__("modeoracle").oracle(ck, "C11 (one <html> element, dependency markup in <head> only)")
     ck.correspond(holds=True)
     phase["model_and_statement"] = round(time.time() - t1, 1)
     ck.extra_cov["phase_s"] = phase
